@@ -5,9 +5,10 @@ import StorageModel.Query.Wire
 namespace StorageModel.Driver.C02
 open StorageModel StorageModel.Driver StorageModel.Query StorageModel.Query.Wire
 
-def errLine (c : Case) : String :=
+def errLine (c : Case) (alien : String := "err") : String :=
   "ids=err|idsc=err|cur=err|prov=" ++ (if c.prov.isNone then "-" else "err") ++ "|iter=err|seek=" ++
-    (if c.seek.isNone then "-" else "err")
+    (if c.seek.isNone then "-" else "err") ++ "|sub=" ++ (match c.prov with | some (.rel _) => "err" | _ => "-") ++
+    "|alien=" ++ alien
 
 def beforeKey (v : Bytes) (r : Row) : Bool := cmpBytes r.id v == .lt
 
@@ -17,10 +18,17 @@ def modelLine (c : Case) : String :=
   match parsePaging c.skip c.limit with
   | .error _ => errLine c
   | .ok paging =>
-    if !sortParses wireSchema c.sort then errLine c else
+    -- QueryIdsC with a query object parsed against a foreign, all-accepting symbol table (filter `true`): the
+    -- sort list reaches newRowComparator unvalidated
+    let alien := renderExcept (queryIdsC pf c.bolt ⟨.tt, c.sort, paging⟩)
+    if !sortParses c.store c.sort then errLine c alien else
     let st := c.bolt
     let q : Query := ⟨c.filter, c.sort, paging⟩
-    let ids := renderExcept (queryIdsC pf st q)
+    -- the sorted-list model of the theorems, cross-checked against the llrb port (Query/Llrb.lean) on every case
+    let ids :=
+      let l := renderExcept (queryIdsC pf st q)
+      let t := renderExcept (queryIdsCT pf st q)
+      if l == t then l else s!"MODEL-SPLIT[{l}|{t}]"
     -- the query object after the first QueryIdsC: untouched when Scan returned early (no bucket)
     let paging1 := if st.bucket.isNone then paging else (setPaging pf paging).1
     let r2 := renderExcept (queryIdsC pf st { q with paging := paging1 })
@@ -31,9 +39,7 @@ def modelLine (c : Case) : String :=
       | some rows => renderExcept (queryWithCursorC pf st q fun fwd => some (bucketCursor rows fwd))
     let prov := match c.prov with
       | none => "-"
-      | some p =>
-        let sub := (st.bucket.getD []).filter fun (r : Row) => c.inProv p r.id
-        renderExcept (queryWithCursorC pf st q fun fwd => some (bucketCursor sub fwd))
+      | some p => renderExcept (queryWithCursorC pf st q (p.provider.cursor c.indexes (st.bucket.getD [])))
     let iter := renderIds (iterateIds pf st q)
     let seek := match c.seek with
       | none => "-"
@@ -44,22 +50,46 @@ def modelLine (c : Case) : String :=
           let env := st.env c.filter
           let (tg, cur0) := openPaged pf env none rows
           renderIds (drain tg env (rows.length + 1) (cur0.seek tg env (beforeKey v)))
-    s!"ids={ids}|idsc={idsc}|cur={cur}|prov={prov}|iter={iter}|seek={seek}"
+    -- newCursorScanner: the owner's `things` set cursor, the sub-query evaluated in the linked (root) store
+    let sub := match c.prov with
+      | some (.rel o) =>
+        if !ownerIds.contains o then "none" else
+        let rows := st.bucket.getD []
+        let root : BoltStore := { st with childSkip := fun _ => false }
+        match (Provider.related (asciiBytes o) "things").cursor c.indexes rows true with
+        | some members => renderIds (subQueryCursor pf root q members)
+        | none => "nil"
+      | _ => "-"
+    s!"ids={ids}|idsc={idsc}|cur={cur}|prov={prov}|iter={iter}|seek={seek}|sub={sub}|alien={alien}"
 
-/-- the specification: sort the satisfying rows, drop, take; count them -/
+/-- the specification: sort the satisfying rows, drop, take; count them.  A query with no sort field or
+    with `id` first is answered in id order whatever follows; any other query whose sort list (with the
+    trailing `id`) contains a field that is not a plain symbol of a sortable type fails with the error of
+    the first such field. -/
 def specLine (c : Case) : String :=
   match parsePaging c.skip c.limit with
   | .error _ => errLine c
   | .ok paging =>
-    if !sortParses wireSchema c.sort then errLine c else
-    match newRowComparator wireSchema c.sort, newRowComparator wireSchema [] with
-    | .ok cmp, .ok byId =>
-      let rows := (c.rows.getD []).map (·.row)
-      -- the entities of the queried store that satisfy the filter
-      let m := rows.filter fun r => !c.childSkip r && sat r c.filter
+    let schema := schemaOf c.store
+    let byIdOnly : Bool := match c.sort with
+      | [] => true
+      | f :: _ => f.name == "id"
+    let sortErr : Option SortErr :=
+      if byIdOnly then none else (c.sort ++ [(⟨"id", true⟩ : SortField)]).findSome? (fieldErr schema)
+    match newRowComparator schema (if byIdOnly then c.sort.take 1 else c.sort), newRowComparator schema [] with
+    | cmp?, .ok byId =>
+      let rows := c.modelRows
       let skip := specSkip c.skip
       let limit := specLimit c.limit
-      let ans (xs : List Row) := renderIds (page cmp skip limit xs) ++ "#" ++ toString (total xs)
+      let ans (xs : List Row) := match sortErr, cmp? with
+        | some e, _ => errKind e
+        | none, .ok cmp => renderIds (page cmp skip limit xs) ++ "#" ++ toString (total xs)
+        | none, .error _ => "spec-error"
+      -- every entity of the queried store (filter `true`), whatever the parser would say about the sort list
+      let alien := if c.rows.isNone then "#0" else ans (rows.filter fun r => !c.childSkip r)
+      if !sortParses c.store c.sort then errLine c alien else
+      -- the entities of the queried store that satisfy the filter
+      let m := rows.filter fun r => !c.childSkip r && sat r c.filter
       let ids := ans m
       let state := if c.rows.isNone then renderOpt paging.skip ++ ":" ++ renderOpt paging.limit
         else toString (skip.getD 0) ++ ":" ++ (match limitRows limit with | none => toString maxI64 | some n => toString n)
@@ -71,7 +101,13 @@ def specLine (c : Case) : String :=
       let seek := match c.seek with
         | none => "-"
         | some v => renderIds (m.filter fun r => !beforeKey v r)
-      s!"ids={ids}|idsc={ids}/{ids}/{state}|cur={cur}|prov={prov}|iter={iter}|seek={seek}"
+      -- the sub-query cursor of owner o: its things that satisfy the filter (in the root store), id order, paged
+      let sub := match c.prov with
+        | some (.rel o) =>
+          if !ownerIds.contains o then "none" else
+          renderIds (page byId skip limit ((rows.filter fun r => sat r c.filter).filter fun r => c.inProv (.rel o) r.id))
+        | _ => "-"
+      s!"ids={ids}|idsc={ids}/{ids}/{state}|cur={cur}|prov={prov}|iter={iter}|seek={seek}|sub={sub}|alien={alien}"
     | _, _ => "spec-error"
 
 def step (line : String) : String :=
